@@ -20,6 +20,7 @@ these equalities they are statements about what the source says now.
 -/
 set_option linter.unusedSimpArgs false
 set_option linter.unusedVariables false
+set_option linter.unusedTactic false
 namespace MetadorModel.Bridge.PartialMerge
 open MetadorModel MetadorModel.Partial MetadorModel.PartialPy
 
@@ -184,6 +185,23 @@ theorem fold_fields (ow : Bool) (c1 : Cls) (step : V → String × PVal → M V)
 
 /-! ## the two translated functions -/
 
+/-- evaluate a generated term on constructor-headed arguments: unfold the generated definition, the
+dictionary and the `Except` monad, and let `simp` decide every `if` / `match` -/
+syntax "py_unfold" ("[" Lean.Parser.Tactic.simpLemma,* "]")? : tactic
+macro_rules
+  | `(tactic| py_unfold) => `(tactic| py_unfold [])
+  | `(tactic| py_unfold [$ls,*]) => `(tactic|
+      simp [Gen.PartialMerge._update_field, isNone, isList, isSet, isModel, truthy, truthyL, truthyO, optOr,
+        Legacy.truthy, pyAdd, pyUnion, toPartialVal, toPartial, pyType, pyIssubclass, guardModel,
+        updO, merge, related, asOpaque,
+        bind, Except.bind, pure, Except.pure, throw, throwThe, MonadExceptOf.throw, $ls,*])
+
+/-- … and map the exceptions to the model's error kinds -/
+syntax "py_eval" ("[" Lean.Parser.Tactic.simpLemma,* "]")? : tactic
+macro_rules
+  | `(tactic| py_eval) => `(tactic| py_unfold [PyErr.toErr])
+  | `(tactic| py_eval [$ls,*]) => `(tactic| py_unfold [PyErr.toErr, $ls,*])
+
 theorem gen_both (k : Nat) :
     (∀ self o n path ow, needO n ≤ k →
       out id (Gen.PartialMerge._update_field k self o n path ow) = some (updO ow o n)) ∧
@@ -198,52 +216,64 @@ theorem gen_both (k : Nat) :
     · cases n <;> simp [needO, need] at h
   | succ k ih =>
     refine ⟨fun self o n path ow h => ?_, fun c1 f1 c2 f2 ii ow path h => ?_⟩
-    · rcases o with _ | o <;> rcases n with _ | n
-      · simp [Gen.PartialMerge._update_field, isNone]
-      · simp [Gen.PartialMerge._update_field, isNone]
-      · simp [Gen.PartialMerge._update_field, isNone]
+    · -- `_update_field`: split on the constructors of both values
+      rcases o with _ | o <;> rcases n with _ | n
+      · py_eval
+      · py_eval
+      · py_eval
       · cases o <;> cases n
-        case set.atom xs a =>
-          cases a <;> cases ow <;> simp [Gen.PartialMerge._update_field, isNone, isList, isSet, isModel, pyAdd, pyUnion,
-            updO, merge, asOpaque, PyErr.toErr, bind, Except.bind]
         case obj.obj c1 f1 c2 f2 =>
-          have h2 := ih.2 c1 f1 c2 f2 false ow (some (optOr path [])) (by simp only [needO, need] at h; omega)
-          rcases sim_cases (mergeFields_ne_invalid ow f1 f2) h2 with ⟨r, hm, hf⟩ | ⟨e, e', hm, hf, he, hne⟩
-          · by_cases hr : (sub c2 c1 || sub c1 c2) = true
-            · simp [Gen.PartialMerge._update_field, isNone, isList, isSet, isModel, toPartialVal, toPartial, pyType,
-                pyIssubclass, guardModel, updO, merge, related, bind, Except.bind, pure, Except.pure, hm, hf, hr]
-            · cases ow <;> simp [Gen.PartialMerge._update_field, isNone, isList, isSet, isModel, toPartialVal, toPartial,
-                pyType, pyIssubclass, guardModel, updO, merge, related, bind, Except.bind, pure, Except.pure, hr,
-                asOpaque, PyErr.toErr]
-          · by_cases hr : (sub c2 c1 || sub c1 c2) = true
-            · cases e <;> simp [Gen.PartialMerge._update_field, isNone, isList, isSet, isModel, toPartialVal, toPartial,
-                pyType, pyIssubclass, guardModel, updO, merge, related, bind, Except.bind, pure, Except.pure, hm, hf, hr,
-                PyErr.toErr] at hne he ⊢ <;> exact he
-            · cases ow <;> simp [Gen.PartialMerge._update_field, isNone, isList, isSet, isModel, toPartialVal, toPartial,
-                pyType, pyIssubclass, guardModel, updO, merge, related, bind, Except.bind, pure, Except.pure, hr,
-                asOpaque, PyErr.toErr]
-        all_goals (cases ow <;> simp [Gen.PartialMerge._update_field, isNone, isList, isSet, isModel, pyAdd, pyUnion,
-            updO, merge, asOpaque, PyErr.toErr, bind, Except.bind])
+          -- two model instances: the nested `merge_with` is, by induction, the model's field loop
+          have h2 := fun ii p => ih.2 c1 f1 c2 f2 ii ow p (by simp only [needO, need] at h; omega)
+          obtain ⟨X, hX⟩ : ∃ X : Bool → Option (List String) → M V, ∀ ii p,
+              Gen.PartialMerge.merge_with k (some (.obj c1 f1)) (some (.obj c2 f2)) ii ow p = X ii p :=
+            ⟨_, fun _ _ => rfl⟩
+          simp only [hX] at h2
+          have hni := mergeFields_ne_invalid ow f1 f2
+          by_cases hr : (sub c2 c1 || sub c1 c2) = true
+          · cases hf : mergeFields ow f1 f2 with
+            | ok r =>
+              have hXr : ∀ ii p, X ii p = .ok (some (.obj c1 r)) := fun ii p => by
+                rcases sim_cases hni (h2 ii p) with ⟨r', h3, h4⟩ | ⟨e, e', h3, h4, _, _⟩
+                · rw [hf] at h4; cases h4; exact h3
+                · rw [hf] at h4; cases h4
+              py_eval [hX, hXr, hf, hr]
+            | error e' =>
+              -- every nested call raises the model's error (never `ValidationError`), whatever its arguments
+              obtain ⟨E, hE1, hE2, hE3⟩ : ∃ E : Bool → Option (List String) → PyErr,
+                  (∀ ii p, X ii p = .error (E ii p)) ∧ (∀ ii p, (E ii p).toErr = some e') ∧
+                  (∀ ii p, E ii p ≠ .validationError) := by
+                refine ⟨fun ii p => match X ii p with | .error e => e | .ok _ => .valueError, ?_, ?_, ?_⟩ <;>
+                · intro ii p
+                  rcases sim_cases hni (h2 ii p) with ⟨r', h3, h4⟩ | ⟨e, e'', h3, h4, h5, h6⟩
+                  · rw [hf] at h4; cases h4
+                  · rw [hf] at h4; cases h4; simp [h3, h5, h6]
+              py_unfold [hX, hE1, hf, hr]
+              repeat' split
+              all_goals first | (simp_all ; done) | (rename_i heq; simp_all [← heq] ; done)
+          · cases ow <;> py_eval [hr]
+        all_goals first
+          | (cases ow <;> py_eval ; done)
+          | (rename_i a; cases a <;> cases ow <;> py_eval ; done)
     · simp only [Gen.PartialMerge.merge_with, pyCast, pyCopy, fieldVals, pure_bind, bind_pure]
       apply fold_fields ow c1 _ f2
       intro acc kv hkv
       have hn : needO (some kv.2) ≤ k := by
         have := need_mem hkv
         simp only [needO]; omega
-      have h1 := fun p => ih.1 (some (.obj c1 f1)) (AL.get acc kv.1) (some kv.2) p ow hn
       simp only [dictGet, pure_bind, bind_pure]
-      generalize (some (optOr path [] ++ [kv.1]) : Option (List String)) = p
-      cases hx : Gen.PartialMerge._update_field k (some (.obj c1 f1)) (AL.get acc kv.1) (some kv.2) p ow with
+      generalize hx : Gen.PartialMerge._update_field k _ (AL.get acc kv.1) (some kv.2) _ ow = g
+      have h1 : out id g = some (updO ow (AL.get acc kv.1) (some kv.2)) := by
+        rw [← hx]; exact ih.1 _ _ _ _ _ hn
+      cases g with
       | error e =>
-        have := h1 p; rw [hx] at this
         cases hu : updO ow (AL.get acc kv.1) (some kv.2) with
-        | error e' => rw [hu] at this; simpa [bind, Except.bind] using this
-        | ok z => rw [hu] at this; cases e <;> simp [PyErr.toErr] at this
+        | error e' => rw [hu] at h1; simpa [bind, Except.bind] using h1
+        | ok z => rw [hu] at h1; cases e <;> simp [PyErr.toErr] at h1
       | ok z =>
-        have := h1 p; rw [hx] at this
-        simp only [out_ok, id, Option.some.injEq] at this
-        obtain ⟨m, rfl⟩ := updO_some_right_ok this.symm
-        simp [← this, dictSet, bind, Except.bind]
+        simp only [out_ok, id, Option.some.injEq] at h1
+        obtain ⟨m, rfl⟩ := updO_some_right_ok h1.symm
+        simp [← h1, dictSet, bind, Except.bind]
 
 /-! ## the bridge theorems -/
 
